@@ -111,12 +111,19 @@ def task_view(itask):
     }
 
 
+VCLOCK = {"off": 0.0}    # virtual clock offset (seconds) seen by retry timers and wall_clock xtriggers
+
+
 def patch():
     """Wrap the live classes once per process."""
     global _PATCHED
     if _PATCHED:
         return
     _PATCHED = True
+    import cylc.flow.task_action_timer as _tat
+    import cylc.flow.xtriggers.wall_clock as _wc
+    _tat.time = lambda: _time.time() + VCLOCK["off"]
+    _wc.time = lambda: _time.time() + VCLOCK["off"]
     from cylc.flow.task_pool import TaskPool
     from cylc.flow.task_proxy import TaskProxy
     from cylc.flow.task_state import TaskState
@@ -443,6 +450,7 @@ class World:
         self.msgs = []        # (due_tick, job_tokens, message)
         self.inflight = []    # messages handed to the scheduler's queue in the current iteration
         self.seq = 0          # creation order of messages (a job's messages are never reordered by a re-send)
+        self.first_tick = {}  # (instance, submit number, message) -> iteration in which it was first handed over
         self.sent = {}        # id(TaskMsg) bookkeeping for messages handed to a scheduler: seq by (job, message)
         self.jobs = {}        # (point, name, submit_num) -> dict(outcome)
         self.tick = 0
@@ -538,6 +546,11 @@ def install_world(schd, world, scn, rng):
                         # over during this main-loop iteration (those count as still to come).
                         left = [m for m in world.msgs if m[3] == [p, n] and m[4] == sn]
                         left += [m for m in world.inflight if m[3] == [p, n] and m[4] == sn]
+                        # (a duplicate of a message already handed over in an earlier iteration says nothing
+                        # about the job's state: the job got past that point long ago)
+                        left = [m for m in left
+                                if world.first_tick.get(((p, n), sn, m[2])) is None
+                                or world.first_tick[((p, n), sn, m[2])] >= world.tick]
                         names = {m[2] for m in left}
                         if "started" in names:
                             ctxd.update({"time_submit_exit": "2020-01-01T00:00:00Z", "job_runner_exit_polled": 0})
@@ -795,9 +808,11 @@ async def run_scenario(scn: dict, home: Path) -> dict:
         pending_restart = None
         pending_crash = None
         CRASH.update({"left": None, "crashed": False, "conns": []})
+        VCLOCK["off"] = 0.0
         for tick in range(max_ticks):
             world.tick = tick
             meta["ticks"] = tick + 1
+            VCLOCK["off"] += float(scn.get("clock_step", 0))
             ev("tick", n=tick)
             for o in ops.get(tick, []):
                 ev("op", op=o)
@@ -835,6 +850,7 @@ async def run_scenario(scn: dict, home: Path) -> dict:
             for _, jt, m, i, sn, seq in due:
                 ev("deliver", id=i, submit_num=sn, message=m)
                 world.sent[(tuple(i), sn, m)] = seq
+                world.first_tick.setdefault((tuple(i), sn, m), tick)
                 schd.message_queue.put(TaskMsg(jt, "2020-01-01T00:00:00Z", "INFO", m))
             n0 = len(REC)
             alive = await sess.tick()
